@@ -52,7 +52,7 @@ CHECKS.update({
 
 CHECKS.update({
  "C06": dict(tech="property-based testing / fuzzing of the FEN parser and builder: byte-string and structure-aware generators with a validity predicate oracle (proptest; libFuzzer target in thorough)",
-             text="Exploration: seven generators (raw bytes, token soup, field-structured soup, canonical FENs with 1-4 edits, well-formed but semantically wrong FENs by construction, canonical FENs of reachable positions, builder scripts) drive parse_fen / str::parse / BoardBuilder under catch_unwind; every accepted board is read back and must satisfy the playability predicate clause by clause; reachable positions (including the material extremes) must be accepted and equal the lockstep board; unreachable-but-playable positions are only held to totality and playability. A process-level stage starts the real chess-cli binary on ~570 (quick) byte-string position arguments (canonical FENs, multi-byte characters inserted at every early byte offset, non-UTF-8 bytes, keyword-like prefixes, token soup): a panic of the process is a violation. Acceptance rate per generator is in evidence.",
+             text="Exploration: seven generators (raw bytes, token soup, field-structured soup, canonical FENs with 1-4 edits, well-formed but semantically wrong FENs by construction, canonical FENs of reachable positions, builder scripts) drive parse_fen / str::parse / BoardBuilder under catch_unwind; every accepted board is read back and must satisfy the playability predicate clause by clause; reachable positions (including the material extremes) must be accepted and equal the lockstep board; unreachable-but-playable positions are only held to totality and playability. A process-level stage starts the real chess-cli binary on ~570 (quick) byte-string position arguments (canonical FENs, multi-byte characters inserted at every early byte offset, non-UTF-8 bytes, keyword-like prefixes, token soup): a panic of the process is a violation. The WASM entry point (chess-wasm, compiled natively into the harness by path) is given ~200 accepted texts: it must return a game, answer 64 square reads and complete a 1 ms search without panicking (its error path needs a wasm target and is not run). Acceptance rate per generator is in evidence.",
              ref="4 C06", note=LEVEL_NOTE_REF),
  "C10": dict(tech="model-based (stateful) property testing: generated iterator-operation sequences against a set model with admissible-fork handling of two recorded findings",
              text="Exploration: generated op lists (next, len/is_empty/size_hint, set_mask, remove, remove_move, clone, count, final cover under complementary masks) on positions reached by generated playouts, legals() and legals_masked() starts, and king_legals(side to move) starts, compared after every op with the set model R/M built from the reference legal moves. Divergences are violations unless the history matches one of the two open findings recorded in known_findings.json (evaluated on the history; 60% of cases avoid them by construction so that the search continues behind them).",
@@ -69,13 +69,13 @@ CHECKS.update({
              text="Exploration: for each generated position one instrumented run yields the poll counts at which deepening passes start; the search is then re-run with the limit expiring at poll k for every k up to min(s_2, 300/800), around every boundary and at generated values. Release and checked (overflow-trapping) profiles. For each k: returns within a poll bound after expiry, no panic (also with INFO/DEBUG logging enabled for small k and around boundaries), move None or reference-legal, None iff no legal move, Some once the first pass finished or whenever the search returns by itself, Some monotone in k. If the engine's pass log line is missing the boundaries are recovered by bisection over public results. A worker stalled on one case is triaged by a node-bounded replay (deterministic 'never consults its limit' verdict). Front-end stage: named roots and underpromotion-mate positions searched through the plugin's stable interface (move handed to the host must be legal), and plugin-vs-plugin games under the real chess-cli bot-fight referee (host panic = violation).",
              ref="4 C11", note=LEVEL_NOTE_ENGINE),
  "C12": dict(tech="property-based testing with constructed mating nets and harvested positions; oracle = reference enumeration of mating moves",
-             text="Exploration: positions with and without a mate in one (mating-net constructors, sparse placements, playouts; half-move clock at 96..100; mated position pre-filled twice in the repetition table) are searched with the limit at the first/second pass boundary and without limit; a mating move with the mover's MateIn(1) score must come back when one exists, the score must never appear otherwise, and it must always come with a move that mates. Descendants with exactly one legal move (preferring those where it mates) and tactical back-rank positions are harvested/constructed because random generation does not reach them.",
+             text="Exploration: positions with and without a mate in one (mating-net constructors, sparse placements, playouts; half-move clock at 96..100; mated position pre-filled twice in the repetition table) are searched with the limit at the first/second pass boundary and without limit; a mating move with the mover's MateIn(1) score must come back when one exists, the score must never appear otherwise, and it must always come with a move that mates. Descendants with exactly one legal move (preferring those where it mates) and tactical back-rank positions are harvested/constructed because random generation does not reach them. Release and checked profiles; through the plugin's stable interface, mate-in-one positions are asked three times on one bot instance (limits 0, 3, none) and the unlimited answer must be the mate.",
              ref="4 C12", note=LEVEL_NOTE_ENGINE),
  "C13": dict(tech="metamorphic testing: colour-mirror relation on scores, depth by depth under each side's own pass boundaries",
              text="Exploration: each generated position without a promotion move at the root and its colour mirror are searched to every depth both complete within the poll cap; the committed scores must be negations of each other (mate-in-n swaps colour); when a mate score ends the deepening the final scores and pass counts are compared as well. Half of the positions are mating nets, sparse material and tactical back-rank positions. Moves are not compared.",
              ref="4 C13", note=LEVEL_NOTE_ENGINE),
  "C15": dict(tech="model-based (stateful) testing of the built plugin through its stable ABI: generated set-board / move / shuffle / evaluate sequences against the reference position and an occurrence map",
-             text="Exploration: libchess_bot.so built from the working tree is driven through chess_api::ChessEngine with generated op lists including reversible manoeuvres that create third and later occurrences, illegal triples and near misses of legal moves, set_board (also with the current position), evaluate with counting timeouts, and a directed >255-repetition shuffle. Validity, reported board, threefold flag (exactly on the third occurrence under the calibrated counting reading) and legality of the proposed move are compared with the model. A host stage lets two copies of the plugin play each other under the real `chess-cli bot-fight` referee (an anchor of the property) at 1 ms, 3 ms and 0 s per move; a panic or abort of the host is a violation.",
+             text="Exploration: libchess_bot.so built from the working tree is driven through chess_api::ChessEngine with generated op lists including reversible manoeuvres that create third and later occurrences, illegal triples and near misses of legal moves, set_board (also with the current position), evaluate with counting timeouts, and a directed >255-repetition shuffle. Validity, reported board, threefold flag (exactly on the third occurrence under the calibrated counting reading) and legality of the proposed move are compared with the model. A quiet walk over hundreds of distinct positions with second and third occurrences forced at about every other position checks that nothing is forgotten in long histories. A host stage lets two copies of the plugin play each other under the real `chess-cli bot-fight` referee (an anchor of the property) at 1 ms, 3 ms and 0 s per move; a panic or abort of the host is a violation.",
              ref="4 C15", note=LEVEL_NOTE_REF + " abi_stable's loader; the occurrence-counting reading is calibrated at run start rather than assumed."),
 })
 
